@@ -47,6 +47,9 @@ package combinator
 //@   ghost_at call#2 parsley.GhostLastCp = lastres[data.IntSet](1)
 //@   assert_at call#3 [cp-operand;C01] same(lastarg[data.IntSet](1), parsley.GhostLastCp)
 //@   ghost_at call#3 parsley.GhostCpAcc = lastres[data.IntSet](0)
+//@   ghost_at call#2 when lastres[parsley.Error](2) != nil && (lastres[parsley.Error](2).Pos() > pos || !parsley.IsNotFound(lastres[parsley.Error](2))) && lastres[parsley.Error](2).Pos() > parsley.GhostBest :: parsley.GhostBest = lastres[parsley.Error](2).Pos()
+//@   assert_at call#8 [L-success;C06] parsley.GhostBest >= 0 ==> lastarg[parsley.Error](1) != nil && lastarg[parsley.Error](1).Pos() >= parsley.GhostBest
+//@   ensures  [L-failure;C06] n == nil && parsley.GhostBestOut >= 0 ==> err != nil && err.Pos() >= parsley.GhostBestOut
 //@   ensures  [cp-all;C01] same(cp, parsley.GhostCpAcc)
 //@   ensures  [E5-first;C01,C04] n != nil ==> same(n, parsley.GhostLastNode)
 //@   ensures  [E5-none;C01,C04] n == nil ==> parsley.GhostLastNode == nil
@@ -54,6 +57,7 @@ package combinator
 //@   invariant 0 <= k && k <= len(parsers)
 //@   invariant [first-wins;C01,C04] k >= 1 ==> parsley.GhostLastNode == nil
 //@   invariant [cp-all;C01] k >= 1 ==> same(cp, parsley.GhostCpAcc)
+//@   invariant [L;C06] (err == nil ==> parsley.GhostBest == -1) && (err != nil ==> err.Pos() >= parsley.GhostBest)
 //@   invariant parsley.WfCtx(ctx) && parsley.WfCache(ctx) && parsley.InInput(ctx.Reader(), pos) && ghostIn(ctx, lrc, pos)
 //@   invariant data.Inv(cp) && errOK(ctx, err, pos) && errOK(ctx, notFoundErr, pos)
 //@   invariant [PC1] k >= 1 && err == nil && notFoundErr == nil ==> parsley.GhostCurtailed
